@@ -311,18 +311,22 @@ func newGRPCBroker(s streamer, tls *tls.Config, unixSocketCfg UnixSocketConfig, 
 func (b *GRPCBroker) Accept(id uint32) (net.Listener, error) {
 	if b.muxer.Enabled() {
 		p := b.getServerStream(id)
+
+		// Register the listener for this ID before answering any knock for it:
+		// a knock that is acknowledged first makes the muxer look for a listener
+		// that does not exist yet.
+		verifhook.Point("grpcbroker.accept.mux.beforeListener")
+		ln, err := b.muxer.Listener(id, p.doneCh)
+		if err != nil {
+			return nil, err
+		}
+
 		go func() {
 			err := b.listenForKnocks(id)
 			if err != nil {
 				log.Printf("[ERR]: error listening for knocks, id: %d, error: %s", id, err)
 			}
 		}()
-
-		verifhook.Point("grpcbroker.accept.mux.beforeListener")
-		ln, err := b.muxer.Listener(id, p.doneCh)
-		if err != nil {
-			return nil, err
-		}
 
 		ln = &rmListener{
 			Listener: ln,
